@@ -69,7 +69,12 @@ META = {
                    'no task on a cycle of that graph has been started; C09_cycle_task_never_reported (such a task is never '
                    'reported at all); C09_cycle_exit3 (cyclic closure, run not cut short, no internal error => cyclic error '
                    'and exit code 3); C09_report_after_dependencies (the order invariant behind it: the terminal report of a '
-                   'task is younger than the terminal report of every closure-graph successor).  Hypothesis BoundedCalc: every '
+                   'task is younger than the terminal report of every closure-graph successor).  The closure graph (edgesAt) counts '
+                   'what executed / up-to-date calc_deps delivered AND what calc_deps delivered that were started and then '
+                   'failed (task.values is read whatever the run_status): C09_failed_delivery_cycle_diagnosed / '
+                   'C09_cycle_only_through_failed_delivery -- a cycle that exists only through a failed delivery ends the '
+                   '--continue run with the cyclic error and exit 3, no task on it started or reported (order invariant InvTF '
+                   'along failed deliveries, on top of the C08 delivery-completeness invariant).  Hypothesis BoundedCalc: every '
                    'calc_dep name is a task index < nTasks, i.e. the monitor has enough fixed-point fuel -- needed: '
                    'C09_cycle_diagnosed_fuel_counterexample.  C09_terminates_serial / _parallel / C09_terminates (FULL, all '
                    'three runners): on a finite task table (FiniteTable: every name mentioned is an index < N; needed, the '
@@ -98,7 +103,10 @@ META = {
              'selection that raises while the workers are started; (3) sampled graphs of 3-9 tasks from runlib.gen_case '
              '(all edge kinds, oracle, flags, selections) with injected cycles (ring of 1-3 tasks, edge kind per ring '
              'edge in task_dep/setup/calc_dep/file_dep, optionally a parent depending on several ring members, optionally '
-             'closed by a calc result), mutually / back-referencing calc results, big-output tasks in process mode.  non-trivial = has a dependency edge; distinct = rendered case + schedule'),
+             'closed by a calc result), mutually / back-referencing calc results, big-output tasks in process mode; (4) family '
+             'fail-delivery-cycle: a calc task whose first action returns task_dep / calc_dep values closing a cycle (self, ring, '
+             'delivered calc_dep, via a good calc task, ring through setup, common parent) and whose second action fails, '
+             'serial / thread / process, with and without --continue.  non-trivial = has a dependency edge; distinct = rendered case + schedule'),
     'assumptions': ['a hang of the OS / of a child that dies without a message is outside the model (DESIGN §8)',
                     'process-mode runs are sampled (real OS scheduling); a worker process still alive 1.5 s after '
                     'DoitMain.run returned counts as "the CLI would not terminate"',
@@ -480,7 +488,8 @@ def edges_at(model, fin, t):
 
 def closure_graph(case, trace, fail=True):
     """closure graph of the run; fail=True: with what FAILED-after-start calc tasks delivered (doit hands on task.values
-    whatever the run_status), fail=False: the graph of the Lean monitor `edgesAt` (executed / up-to-date deliveries)"""
+    whatever the run_status) = the graph of the Lean monitor `edgesAt` since wave 5; fail=False: executed / up-to-date
+    deliveries only (`edgesAtGood` / `cycleTasksGood`, the driver's `cycleGood`)"""
     model = case.get('model') or c09_expand(case)
     fin = _finished_f(trace) if fail else _finished(trace)
     clo, todo = [], [s for s in model['sel'] if 0 <= s < model['n']]
